@@ -18,6 +18,23 @@ func ruleRangeStringWhole(c *Ctx, rule string) {
 	}
 	sp := calls(fn, "strings.Split", "strings.SplitN", "strings.Cut", "strings.Fields", "strings.SplitAfter", "strings.SplitAfterN")
 	if len(sp) == 0 {
+		// index-and-slice form: `i := strings.Index(s, sep); first, last := s[:i], s[i+len(sep):]`
+		if ix := calls(fn, "strings.Index", "strings.IndexByte", "strings.IndexRune", "strings.LastIndex"); len(ix) > 0 {
+			tail := false
+			allInstrs(fn, func(in ssa.Instruction) {
+				sl, ok := in.(*ssa.Slice)
+				if !ok || sl.High != nil || sl.Low == nil {
+					return
+				}
+				for _, ref := range *sl.Referrers() {
+					if call, isCall := ref.(*ssa.Call); isCall && nameMatch(calleeName(call), "net.ParseIP") {
+						tail = true
+					}
+				}
+			})
+			c.ob(rule, fn, "the whole range string is parsed", ix[0], tail, "index-and-slice: the part after the separator runs to the end of the string (s[i+len(sep):]) and is parsed as an address, so extra separators make net.ParseIP fail")
+			return
+		}
 		c.undecided(rule, fn, "split of the range string", nil, "no split call found")
 		return
 	}
@@ -582,7 +599,24 @@ func ruleRangeDecodeAssigns(c *Ctx, rule string) {
 		}
 		// the stores happen only behind the non-nil result of ParseIPRange
 		res := ps[0].Value()
-		g := nonNilEdgesOf(fn, func(x ssa.Value) bool { return x == res })
+		g := nonNilEdgesOf(fn, func(x ssa.Value) bool {
+			if x == res {
+				return true
+			}
+			// `var parsed *IPRange; if len(data) >= 3 { parsed = ParseIPRange(..) }`: nil or the result
+			if ph, isPhi := x.(*ssa.Phi); isPhi {
+				hasRes := false
+				for _, e := range ph.Edges {
+					if e == res {
+						hasRes = true
+					} else if !isNilConst(e) {
+						return false
+					}
+				}
+				return hasRes
+			}
+			return false
+		})
 		for _, st := range stores {
 			if !guardedBy(fn, st, g) {
 				ok = false
